@@ -40,6 +40,7 @@ import RbModel.Lemmas.FlagCarry
 import RbModel.Lemmas.Stch
 import RbModel.Lemmas.GposFlag
 import RbModel.Gen.GposWorked
+import RbModel.Lemmas.MatchSpanFlags
 
 namespace RbModel.Flags
 
@@ -601,3 +602,534 @@ example : ∃ (b b' : Buf) (p p' : Array Pos) (v1 v2 : ValueRecordD),
    { xAdvDevice := some (-200) }, {}, by rfl, by decide, by decide, rfl, rfl, rfl, rfl, by decide⟩
 
 end RbModel.GposFlag
+
+
+/-! ### the flagged span covers what the GSUB matching machinery inspected (contextual rules, ligatures)
+
+  `matchInputI`, `matchLookaheadI`, `matchBacktrackI`, `chainMatchI` (Lemmas/MatchSpan*.lean) are the matchers of Gsub.lean
+  (the line-by-line models of ot_layout_gsubgpos.rs match_input / match_lookahead / match_backtrack / apply_chain_context, tied
+  to the crate by the `gsub-interp` and `gsub-flags` streams) that additionally return the list of glyphs they READ:
+  `Rd.inp i` = `buffer.info[i]` (the current glyph, every glyph the skipping iterator stepped over or stopped at),
+  `Rd.out j` = `out_info()[j]` read by the backward iterator, `Rd.lig j` = `out_info()[j]` read by the lig-base scan of
+  match_input.  `C03_match_instrumented_same`: forgetting the list gives the plain matcher, and the model's rules are
+  "instrumented matching phase, then flag call, then action" — equations, nothing new is trusted.
+
+  The statements about flags are compositions with `C03_interior` / `C03_interior_out`, so they are stated at the level
+  those allow: clusters monotone over the unconsumed input `[idx, len)` (and over the out-buffer), cluster values ≤ u32::MAX.
+  They speak about the buffer right after the flag call (`b`); the nested lookups of the rule then run on `b`
+  (`applyLookup … { c with buf := b } … = .ok c'`) and may move glyphs — what they do to flags is the subject of the
+  primitives' theorems above (`C03_set_cluster_flags` …).
+
+  NOT covered by the flagged span (and said so in each statement): the `Rd.lig j` reads.  When the current glyph is a mark
+  attached to a component of a ligature, match_input scans the out-buffer backwards over the glyphs with the same lig_id for the
+  ligature itself and asks whether it is ignorable; `unsafe_to_break(idx, end)` / `merge_clusters(idx, end)` of Context and
+  Ligature lookups do not reach into the out-buffer.  Those glyphs carry the lig_id of the current glyph, i.e. they are the
+  ligature the mark was attached to by an earlier `ligate_input`, which merged that mark into the ligature's cluster (levels 0/1)
+  or flagged the range (level 2) — that argument is about the history of the buffer and is not proved here. -/
+namespace RbModel.Flags
+open RbModel RbModel.Gsub
+
+/-- **the instrumented matchers are the matchers**: dropping the list of reads gives exactly `matchInput`, `matchLookahead`,
+    `matchBacktrack` of the model, and the contextual rules of the model are the instrumented matching phase followed by the
+    flag call on the reported span and the action.  For every context, font, rule. -/
+theorem C03_match_instrumented_same (recurse : Ctx → Nat → M (Ctx × Bool)) (c : Ctx) (n : Nat) (fn : Nat → Nat → Bool)
+    (p : List Nat) (s : Nat) (input : List Nat) (mf : Nat → Nat → Bool) (lookups : List Rec)
+    (nBack nIn nAhead : Nat) (fBack fIn fAhead : Nat → Nat → Bool) :
+    (matchInputI c n fn p).map (·.r) = matchInput c n fn p ∧
+    (matchLookaheadI c n fn s).map (·.1) = matchLookahead c n fn s ∧
+    (matchBacktrackI c n fn).map (·.1) = matchBacktrack c n fn ∧
+    applyContextRule recurse c input mf lookups =
+      (matchInputI c input.length (fun g i => mf g (input.getD i 0)) [0, 0, 0, 0] >>=
+        contextFinish recurse c input.length lookups) ∧
+    applyChainRule recurse c nBack nIn nAhead fBack fIn fAhead lookups =
+      (chainMatchI c nBack nIn nAhead fBack fIn fAhead >>= chainFinish recurse c nIn lookups) :=
+  ⟨matchInputI_erase c n fn p, matchLookaheadI_erase c n fn s, matchBacktrackI_erase c n fn,
+   applyContextRule_eq recurse c input mf lookups, applyChainRule_eq recurse c nBack nIn nAhead fBack fIn fAhead lookups⟩
+
+/-- **INSPECTED ⊆ SPAN for the three matchers**, success and failure alike, every font / lookup / buffer:
+    * match_input: every in-buffer glyph read lies in `[idx, end_position)`, `end_position ∈ (idx, len]`, on every path that
+      read anything — success, iterator failure and (since the repair "fix: match_input left end_position unset …"; before it
+      `end_position` stayed 0 there, see `C04_ligcomp_fail_flagged` in Props/C04.lean) the ligature-component `return false`;
+      out-buffer glyphs are read by the lig-base scan only (`Rd.lig`);
+    * match_lookahead from `s`: reads lie in `[s, end_index)`, `s ≤ end_index ≤ len`;
+    * match_backtrack: reads lie in `[match_start, backtrack_len)` of the out-buffer. -/
+theorem C03_match_reads_in_span (c : Ctx) (n : Nat) (fn : Nat → Nat → Bool) (hidx : c.buf.idx < c.buf.len) :
+    (∀ p R, matchInputI c n fn p = .ok R →
+      (R.r.ok = true ↔ R.why = .matched) ∧ (R.why = .tooLong → R.reads = [] ∧ R.r.endPos = 0) ∧
+      (R.why ≠ .tooLong → c.buf.idx < R.r.endPos ∧ R.r.endPos ≤ c.buf.len) ∧
+      (∀ i, Rd.inp i ∈ R.reads → c.buf.idx ≤ i ∧ i < c.buf.len ∧ i < R.r.endPos) ∧
+      (∀ j, Rd.out j ∉ R.reads) ∧ (∀ j, Rd.lig j ∈ R.reads → j < c.buf.outLen)) ∧
+    (∀ s ok e rs, matchLookaheadI c n fn s = .ok ((ok, e), rs) → s ≤ c.buf.len →
+      s ≤ e ∧ e ≤ c.buf.len ∧ ∀ i ∈ rs, s ≤ i ∧ i < e) ∧
+    (∀ ok st rs, matchBacktrackI c n fn = .ok ((ok, st), rs) →
+      st ≤ backtrackLen c.buf ∧ ∀ j ∈ rs, st ≤ j ∧ j < backtrackLen c.buf) := by
+  refine ⟨?_, ?_, ?_⟩
+  · intro p R hR
+    obtain ⟨r1, r2, r4, r5⟩ := matchInputI_span c n fn p R hR hidx
+    refine ⟨r1, r2, r4, ?_, ?_, ?_⟩
+    · intro i hi
+      rcases r5 _ hi with ⟨i', a1, a2, a3, a4⟩ | ⟨j, a1, _⟩
+      · cases a1; exact ⟨a2, a3, a4⟩
+      · cases a1
+    · intro j hj
+      rcases r5 _ hj with ⟨i', a1, _⟩ | ⟨j', a1, _⟩ <;> cases a1
+    · intro j hj
+      rcases r5 _ hj with ⟨i', a1, _⟩ | ⟨j', a1, a2⟩
+      · cases a1
+      · cases a1; exact a2
+  · intro s ok e rs h hs
+    exact matchLookaheadI_span c n fn s ok e rs h hs
+  · intro ok st rs h
+    exact matchBacktrackI_span c n fn ok st rs h
+
+-- non-vacuity: the matcher steps over the ignored mark (index 2) and stops at index 3; both are among the reads
+example : (matchInputI spanCtx 1 (fun g i => g == [2].getD i 0) [0, 0, 0, 0]).map MatchInI.view
+    = .ok (true, 4, [.inp 1, .inp 2, .inp 3], .matched) := by rfl
+example : (matchInputI spanCtx 1 (fun g i => g == [3].getD i 0) [0, 0, 0, 0]).map MatchInI.view
+    = .ok (false, 4, [.inp 1, .inp 2, .inp 3], .iter) := by rfl
+example : matchLookaheadI spanCtx 1 (fun g _ => g == 3) 4 = .ok ((true, 5), [4]) := by rfl
+example : matchBacktrackI spanCtx 1 (fun g _ => g == 5) = .ok ((true, 0), [0]) := by rfl
+example : spanCtx.buf.idx < spanCtx.buf.len := by decide
+
+/-- **a context rule that matched flagged everything it inspected — the common form of Context formats 1, 2 and 3**: the rule
+    is "match_input with the match function `fn` over `n` further glyphs, then `contextFinish`" (`C03_match_instrumented_same` /
+    `C03_context3_instrumented_same` are the equations with the model's rules).  When it returns `(c', true)`: match_input
+    succeeded with reads `R.reads`, the flag call was `unsafe_to_break(idx, end_position)` on the buffer the rule found, the nested
+    lookups ran on the flagged buffer `b`, and every in-buffer glyph the matcher read — skipped glyphs and the last matched glyph
+    included — lies in `[idx, end_position)` and in `b` either belongs to the minimum cluster `m` of that range or carries
+    UNSAFE_TO_BREAK (`BreakFlagged`: it is the old glyph with `mask |= BREAK | CONCAT` iff its cluster differs from `m`).
+    Monotone clusters over `[idx, len)` (the level `C03_interior` allows), all three cluster levels.  The backward iterator is
+    not used (`Rd.out` never occurs); the lig-base scan's out-buffer reads are outside the span (see the section comment). -/
+theorem C03_contextI_match_flags_inspected (recurse : Ctx → Nat → M (Ctx × Bool)) (c c' : Ctx) (n : Nat)
+    (fn : Nat → Nat → Bool) (lookups : List Rec)
+    (h : (matchInputI c n fn [0, 0, 0, 0] >>= contextFinish recurse c n lookups) = .ok (c', true))
+    (hidx : c.buf.idx < c.buf.len) (hlen : c.buf.len ≤ c.buf.info.length)
+    (hu32 : ∀ j x, c.buf.idx ≤ j → j < c.buf.len → c.buf.info[j]? = some x → x.cluster ≤ U32MAX)
+    (hmono : MonoRange c.buf.info c.buf.idx c.buf.len) :
+    ∃ (R : MatchInI) (b : Buf) (m : Nat),
+      matchInputI c n fn [0, 0, 0, 0] = .ok R ∧ R.r.ok = true ∧
+      c.buf.idx < R.r.endPos ∧ R.r.endPos ≤ c.buf.len ∧
+      c.buf.unsafeToBreak c.buf.idx (some R.r.endPos) = .ok b ∧
+      applyLookup recurse { c with buf := b } n R.r.positions R.r.endPos lookups = .ok c' ∧
+      IsRangeMin c.buf.info c.buf.idx R.r.endPos m ∧
+      (∀ i, Rd.inp i ∈ R.reads → c.buf.idx ≤ i ∧ i < R.r.endPos ∧
+          ∃ x, c.buf.info[i]? = some x ∧ BreakFlagged b.info i x m) ∧
+      (∀ j, Rd.out j ∉ R.reads) ∧ (∀ j, Rd.lig j ∈ R.reads → j < c.buf.outLen) := by
+  cases hR : matchInputI c n fn [0, 0, 0, 0] with
+  | error e => simp only [hR, bind, Except.bind] at h; cases h
+  | ok R =>
+    simp only [hR, bind, Except.bind, contextFinish] at h
+    cases hok : R.r.ok with
+    | false =>
+      simp only [hok, Bool.false_eq_true, if_false] at h
+      cases hb : c.buf.unsafeToConcat c.buf.idx (some R.r.endPos) with
+      | error e => simp [hb] at h
+      | ok b => simp [hb, pure, Except.pure] at h
+    | true =>
+      obtain ⟨r1, _, r4, r5⟩ := matchInputI_span c _ _ _ R hR hidx
+      have hwm := r1.mp hok
+      obtain ⟨q1, q2⟩ := r4 (by simp [hwm])
+      obtain ⟨b, m, hb, hmin, hupd, _⟩ := C03_interior c.buf c.buf.idx R.r.endPos q1 q2 hlen
+        (fun j x a1 a2 a3 => hu32 j x a1 (by omega) a3) (MonoRange.shrink hmono q2)
+      simp only [hok, if_true, hb] at h
+      cases hal : applyLookup recurse { c with buf := b } n R.r.positions R.r.endPos lookups with
+      | error e => simp [hal] at h
+      | ok c2 =>
+        simp only [hal, pure, Except.pure, Except.ok.injEq, Prod.mk.injEq, and_true] at h
+        subst h
+        refine ⟨R, b, m, rfl, hok, q1, q2, hb, hal, hmin, ?_, ?_, ?_⟩
+        · intro i hi
+          rcases r5 _ hi with ⟨i', a1, a2, a3, a4⟩ | ⟨j, a1, _⟩
+          · cases a1
+            have hil : i < c.buf.info.length := by omega
+            exact ⟨a2, a4, _, List.getElem?_eq_getElem hil,
+              BreakFlagged.of_upd hupd (List.getElem?_eq_getElem hil) a2 a4⟩
+          · cases a1
+        · intro j hj
+          rcases r5 _ hj with ⟨i', a1, _⟩ | ⟨j', a1, _⟩ <;> cases a1
+        · intro j hj
+          rcases r5 _ hj with ⟨i', a1, _⟩ | ⟨j', a1, a2⟩
+          · cases a1
+          · cases a1; exact a2
+
+/-- **a context rule that matched flagged everything it inspected** (`apply_context`, Context formats 1 and 2): the instance
+    of `C03_contextI_match_flags_inspected` for `applyContextRule`. -/
+theorem C03_context_match_flags_inspected (recurse : Ctx → Nat → M (Ctx × Bool)) (c c' : Ctx) (input : List Nat)
+    (matchFn : Nat → Nat → Bool) (lookups : List Rec)
+    (h : applyContextRule recurse c input matchFn lookups = .ok (c', true))
+    (hidx : c.buf.idx < c.buf.len) (hlen : c.buf.len ≤ c.buf.info.length)
+    (hu32 : ∀ j x, c.buf.idx ≤ j → j < c.buf.len → c.buf.info[j]? = some x → x.cluster ≤ U32MAX)
+    (hmono : MonoRange c.buf.info c.buf.idx c.buf.len) :
+    ∃ (R : MatchInI) (b : Buf) (m : Nat),
+      matchInputI c input.length (fun g i => matchFn g (input.getD i 0)) [0, 0, 0, 0] = .ok R ∧ R.r.ok = true ∧
+      c.buf.idx < R.r.endPos ∧ R.r.endPos ≤ c.buf.len ∧
+      c.buf.unsafeToBreak c.buf.idx (some R.r.endPos) = .ok b ∧
+      applyLookup recurse { c with buf := b } input.length R.r.positions R.r.endPos lookups = .ok c' ∧
+      IsRangeMin c.buf.info c.buf.idx R.r.endPos m ∧
+      (∀ i, Rd.inp i ∈ R.reads → c.buf.idx ≤ i ∧ i < R.r.endPos ∧
+          ∃ x, c.buf.info[i]? = some x ∧ BreakFlagged b.info i x m) ∧
+      (∀ j, Rd.out j ∉ R.reads) ∧ (∀ j, Rd.lig j ∈ R.reads → j < c.buf.outLen) := by
+  rw [applyContextRule_eq] at h
+  exact C03_contextI_match_flags_inspected recurse c c' _ _ lookups h hidx hlen hu32 hmono
+
+/-- **Context format 3 is the same rule**: `applySubtable (.context3 (cov :: rest) lookups)` is the coverage test of the current
+    glyph followed by `matchInputI c rest.length (fun g i => nthCov rest i g) [0,0,0,0] >>= contextFinish …` — an equation. -/
+theorem C03_context3_instrumented_same (recurse : Ctx → Nat → M (Ctx × Bool)) (nf : Bool) (c : Ctx) (cov : Cov)
+    (restCovs : List Cov) (lookups : List Rec) :
+    applySubtable recurse nf c (.context3 (cov :: restCovs) lookups) = (do
+      let cur ← Mem.get c.buf.info c.buf.idx
+      match cov.index (cur.gid % 65536) with
+      | none => pure (c, false)
+      | some _ =>
+        matchInputI c restCovs.length (fun g i => nthCov restCovs i g) [0, 0, 0, 0] >>=
+          contextFinish recurse c restCovs.length lookups) :=
+  context3_eq recurse nf c cov restCovs lookups
+
+/-- **a Context format 3 subtable that applied flagged everything it inspected**: the instance of
+    `C03_contextI_match_flags_inspected` for the inline code of format 3 (through `C03_context3_instrumented_same`). -/
+theorem C03_context3_match_flags_inspected (recurse : Ctx → Nat → M (Ctx × Bool)) (nf : Bool) (c c' : Ctx) (cov : Cov)
+    (restCovs : List Cov) (lookups : List Rec)
+    (h : applySubtable recurse nf c (.context3 (cov :: restCovs) lookups) = .ok (c', true))
+    (hidx : c.buf.idx < c.buf.len) (hlen : c.buf.len ≤ c.buf.info.length)
+    (hu32 : ∀ j x, c.buf.idx ≤ j → j < c.buf.len → c.buf.info[j]? = some x → x.cluster ≤ U32MAX)
+    (hmono : MonoRange c.buf.info c.buf.idx c.buf.len) :
+    ∃ (R : MatchInI) (b : Buf) (m : Nat),
+      matchInputI c restCovs.length (fun g i => nthCov restCovs i g) [0, 0, 0, 0] = .ok R ∧ R.r.ok = true ∧
+      c.buf.idx < R.r.endPos ∧ R.r.endPos ≤ c.buf.len ∧
+      c.buf.unsafeToBreak c.buf.idx (some R.r.endPos) = .ok b ∧
+      applyLookup recurse { c with buf := b } restCovs.length R.r.positions R.r.endPos lookups = .ok c' ∧
+      IsRangeMin c.buf.info c.buf.idx R.r.endPos m ∧
+      (∀ i, Rd.inp i ∈ R.reads → c.buf.idx ≤ i ∧ i < R.r.endPos ∧
+          ∃ x, c.buf.info[i]? = some x ∧ BreakFlagged b.info i x m) ∧
+      (∀ j, Rd.out j ∉ R.reads) ∧ (∀ j, Rd.lig j ∈ R.reads → j < c.buf.outLen) := by
+  rw [context3_eq] at h
+  cases hg : Mem.get c.buf.info c.buf.idx with
+  | error e => simp only [hg, bind, Except.bind] at h; cases h
+  | ok cur =>
+    simp only [hg, bind, Except.bind] at h
+    cases hc : cov.index (cur.gid % 65536) with
+    | none => simp [hc, pure, Except.pure] at h
+    | some i =>
+      simp only [hc] at h
+      exact C03_contextI_match_flags_inspected recurse c c' _ _ lookups h hidx hlen hu32 hmono
+
+-- non-vacuity: the rule "1 (marks ignored) 2" on glyphs 5 | 1 mark 2 3: matched, reads = [1, 2, 3], the mark (cluster 2) and
+-- the glyph 2 (cluster 3) are flagged, the first glyph of the range (minimum cluster 1) is not
+example : ∃ c', applyContextRule spanNoRecurse spanCtx [2] (fun g v => g == v) [] = .ok (c', true) ∧
+    c'.buf.info.map (·.mask) = [1, 1, 3, 3, 1] ∧
+    spanCtx.buf.idx < spanCtx.buf.len ∧ spanCtx.buf.len ≤ spanCtx.buf.info.length ∧
+    (∀ j x, spanCtx.buf.idx ≤ j → j < spanCtx.buf.len → spanCtx.buf.info[j]? = some x → x.cluster ≤ U32MAX) ∧
+    MonoRange spanCtx.buf.info spanCtx.buf.idx spanCtx.buf.len :=
+  ⟨_, rfl, rfl, by decide, by decide, fun j x _ _ hx => u32_of_all (by decide) j x hx, MonoRange.of_pairwise (by decide) _ _⟩
+
+-- non-vacuity of the format 3 instance: coverages [1] [2] (marks ignored) on the same buffer
+example : ∃ c', applySubtable spanNoRecurse true spanCtx (.context3 [[1], [2]] []) = .ok (c', true) ∧
+    c'.buf.info.map (·.mask) = [1, 1, 3, 3, 1] := ⟨_, rfl, rfl⟩
+
+/-- **a chain rule that matched flagged everything it inspected** (`apply_chain_context`, ChainContext formats 1-3), in the
+    state every forward GSUB pass is in (`have_output`).  When the rule returns `(c', true)`: the matching phase `chainMatchI`
+    ended `matched` with the span `out[start_index, out_len) ++ info[idx, end_index)`, the flag call was
+    `unsafe_to_break_from_outbuffer(start_index, end_index)`, the nested lookups ran on the flagged buffer `b`, and every glyph
+    read by match_input, match_lookahead (`Rd.inp`) and match_backtrack (`Rd.out`) lies in that span and in `b` either belongs to
+    the minimum cluster `r` of the two-sided range or carries UNSAFE_TO_BREAK.  Monotone clusters over the out-buffer and over
+    `[idx, len)`, both output modes, all three cluster levels. -/
+theorem C03_chain_match_flags_inspected (recurse : Ctx → Nat → M (Ctx × Bool)) (c c' : Ctx) (nBack nIn nAhead : Nat)
+    (fBack fIn fAhead : Nat → Nat → Bool) (lookups : List Rec)
+    (h : applyChainRule recurse c nBack nIn nAhead fBack fIn fAhead lookups = .ok (c', true))
+    (hidx : c.buf.idx < c.buf.len) (hwf : Buf.WF c.buf) (hho : c.buf.haveOutput = true)
+    (hu1 : ∀ j x, j < c.buf.outLen → c.buf.outArr[j]? = some x → x.cluster ≤ U32MAX)
+    (hu2 : ∀ j x, c.buf.idx ≤ j → j < c.buf.len → c.buf.info[j]? = some x → x.cluster ≤ U32MAX)
+    (hmo : MonoRange c.buf.outArr 0 c.buf.outLen) (hmi : MonoRange c.buf.info c.buf.idx c.buf.len) :
+    ∃ (m : ChainM) (b : Buf) (r : Nat),
+      chainMatchI c nBack nIn nAhead fBack fIn fAhead = .ok m ∧ m.verdict = .matched ∧
+      m.startIndex ≤ c.buf.outLen ∧ c.buf.idx < m.endIndex ∧ m.endIndex ≤ c.buf.len ∧
+      c.buf.unsafeToBreakFromOut m.startIndex (some m.endIndex) = .ok b ∧
+      applyLookup recurse { c with buf := b } nIn m.R.r.positions m.R.r.endPos lookups = .ok c' ∧
+      LowerBound c.buf.outArr m.startIndex c.buf.outLen r ∧ LowerBound c.buf.info c.buf.idx m.endIndex r ∧
+      ((∃ j x, m.startIndex ≤ j ∧ j < c.buf.outLen ∧ c.buf.outArr[j]? = some x ∧ x.cluster = r) ∨
+       (∃ j x, c.buf.idx ≤ j ∧ j < m.endIndex ∧ c.buf.info[j]? = some x ∧ x.cluster = r)) ∧
+      (∀ i, Rd.inp i ∈ m.reads → c.buf.idx ≤ i ∧ i < m.endIndex ∧
+          ∃ x, c.buf.info[i]? = some x ∧ BreakFlagged b.info i x r) ∧
+      (∀ j, Rd.out j ∈ m.reads → m.startIndex ≤ j ∧ j < c.buf.outLen ∧
+          ∃ x, c.buf.outArr[j]? = some x ∧ BreakFlagged b.outArr j x r) ∧
+      (∀ j, Rd.lig j ∈ m.reads → j < c.buf.outLen) := by
+  rw [applyChainRule_eq] at h
+  cases hm : chainMatchI c nBack nIn nAhead fBack fIn fAhead with
+  | error e => simp only [hm, bind, Except.bind] at h; cases h
+  | ok m =>
+    obtain ⟨_, _, s3, s4, s5, s6, s7⟩ := chainMatchI_span c _ _ _ _ _ _ m hm hidx
+    simp only [hm, bind, Except.bind, chainFinish] at h
+    have hbl : backtrackLen c.buf = c.buf.outLen := by simp [backtrackLen, hho]
+    cases hv : m.verdict with
+    | inputFail | aheadFail =>
+      simp only [hv] at h
+      cases hb : c.buf.unsafeToConcat c.buf.idx (some m.endIndex) with
+      | error e => simp [hb] at h
+      | ok b => simp [hb, pure, Except.pure] at h
+    | backFail =>
+      simp only [hv] at h
+      cases hb : c.buf.unsafeToConcatFromOut m.startIndex (some m.endIndex) with
+      | error e => simp [hb] at h
+      | ok b => simp [hb, pure, Except.pure] at h
+    | matched =>
+      simp only [hv] at h
+      have hst : m.startIndex ≤ c.buf.outLen := by rw [← hbl]; exact s6 (Or.inr hv)
+      have hlt : c.buf.idx < m.endIndex := s5 (by simp [hv])
+      obtain ⟨b, r, o1, hb, l1, l2, hatt, U1, U2, hout, hb'⟩ :=
+        C03_interior_out c.buf m.startIndex m.endIndex hho hst hwf.out_cap s3 s4 hwf.len_le
+          (fun j x _ a2 a3 => hu1 j x a2 a3) (fun j x a1 a2 a3 => hu2 j x a1 (by omega) a3) (Or.inr hlt)
+          (MonoRange.shrinkL hmo (Nat.zero_le _)) (MonoRange.shrink hmi s4)
+      have hsep : b.sepOut = c.buf.sepOut := by rw [hb']
+      obtain ⟨t1, t2⟩ := twoSided_at U1 U2 hout hsep hwf.nosep_ok
+      simp only [hb] at h
+      cases hal : applyLookup recurse { c with buf := b } nIn m.R.r.positions m.R.r.endPos lookups with
+      | error e => simp [hal] at h
+      | ok c2 =>
+        simp only [hal, pure, Except.pure, Except.ok.injEq, Prod.mk.injEq, and_true] at h
+        subst h
+        refine ⟨m, b, r, rfl, hv, hst, hlt, s4, hb, hal, l1, l2, hatt, ?_, ?_, ?_⟩
+        · intro i hi
+          rcases s7 _ hi with ⟨i', a1, a2, a3, a4⟩ | ⟨j, a1, _⟩ | ⟨j, a1, _⟩
+          · cases a1
+            have hlt' := a4
+            have hil : i < c.buf.info.length := by have := hwf.len_le; omega
+            exact ⟨a2, hlt', _, List.getElem?_eq_getElem hil,
+              BreakFlagged.of_eq (t1 i _ a2 hlt' (List.getElem?_eq_getElem hil))⟩
+          · cases a1
+          · cases a1
+        · intro j hj
+          rcases s7 _ hj with ⟨i', a1, _⟩ | ⟨j', a1, _, a3, a4⟩ | ⟨j', a1, _⟩
+          · cases a1
+          · cases a1
+            rw [hbl] at a4
+            have hjl : j < c.buf.outArr.length := by have := hwf.out_cap; omega
+            exact ⟨a3, a4, _, List.getElem?_eq_getElem hjl,
+              BreakFlagged.of_eq (t2 j _ a3 a4 (List.getElem?_eq_getElem hjl))⟩
+          · cases a1
+        · intro j hj
+          rcases s7 _ hj with ⟨i', a1, _⟩ | ⟨j', a1, _⟩ | ⟨j', a1, a2⟩
+          · cases a1
+          · cases a1
+          · cases a1; exact a2
+
+-- non-vacuity: backtrack 5, input "1 (marks ignored) 2", lookahead 3 on glyphs 5 | 1 mark 2 3: matched, the span is the whole
+-- buffer, reads = input [1, 2, 3] + lookahead [4] + backtrack out[0]; everything outside cluster 0 is flagged
+example : (chainMatchI spanCtx 1 1 1 (fun g _ => g == 5) (fun g _ => g == 2) (fun g _ => g == 3)).map ChainM.view
+    = .ok (.matched, 0, 5, [.inp 1, .inp 2, .inp 3, .inp 4, .out 0]) := by rfl
+example : ∃ c', applyChainRule spanNoRecurse spanCtx 1 1 1 (fun g _ => g == 5) (fun g _ => g == 2) (fun g _ => g == 3) []
+      = .ok (c', true) ∧ c'.buf.info.map (·.mask) = [1, 3, 3, 3, 3] ∧
+    spanCtx.buf.idx < spanCtx.buf.len ∧ Buf.WF spanCtx.buf ∧ spanCtx.buf.haveOutput = true ∧
+    (∀ j x, j < spanCtx.buf.outLen → spanCtx.buf.outArr[j]? = some x → x.cluster ≤ U32MAX) ∧
+    (∀ j x, spanCtx.buf.idx ≤ j → j < spanCtx.buf.len → spanCtx.buf.info[j]? = some x → x.cluster ≤ U32MAX) ∧
+    MonoRange spanCtx.buf.outArr 0 spanCtx.buf.outLen ∧ MonoRange spanCtx.buf.info spanCtx.buf.idx spanCtx.buf.len :=
+  ⟨_, rfl, rfl, by decide, ⟨by decide, by decide, by simp [spanCtx], by decide⟩, rfl,
+   fun j x _ hx => u32_of_all (l := spanCtx.buf.outArr) (by decide) j x hx,
+   fun j x _ _ hx => u32_of_all (by decide) j x hx,
+   MonoRange.of_pairwise (l := spanCtx.buf.outArr) (by decide) _ _, MonoRange.of_pairwise (by decide) _ _⟩
+
+/-- **Ligature::apply, a ligature that forms**: everything match_input read in the in-buffer lies in `[idx, match_end)`, the
+    range `ligate_input` merges into one cluster (`merge_clusters(idx, match_end)`; at cluster level 2 that call IS
+    `unsafe_to_break(idx, match_end)`) -/
+theorem C03_ligature_match_reads_merged (c c' : Ctx) (comps : List Nat) (lig : Nat) (hne : comps.isEmpty = false)
+    (h : ligatureRule c (comps, lig) = .ok (c', true)) (hidx : c.buf.idx < c.buf.len) :
+    ∃ (R : MatchInI),
+      matchInputI c comps.length (fun g i => g == comps.getD i 0) [0, 0, 0, 0] = .ok R ∧ R.r.ok = true ∧
+      c.buf.idx < R.r.endPos ∧ R.r.endPos ≤ c.buf.len ∧
+      ligateInput c (comps.length + 1) R.r.positions R.r.endPos R.r.totalComps lig = .ok c' ∧
+      (∀ i, Rd.inp i ∈ R.reads → c.buf.idx ≤ i ∧ i < R.r.endPos) ∧
+      (∀ j, Rd.out j ∉ R.reads) ∧ (∀ j, Rd.lig j ∈ R.reads → j < c.buf.outLen) := by
+  rw [ligatureRule_eq c (comps, lig) hne] at h
+  cases hR : matchInputI c comps.length (fun g i => g == comps.getD i 0) [0, 0, 0, 0] with
+  | error e => simp only [hR, bind, Except.bind] at h; cases h
+  | ok R =>
+    simp only [hR, bind, Except.bind, ligatureFinish] at h
+    cases hok : R.r.ok with
+    | false =>
+      simp only [hok, Bool.not_false, if_true] at h
+      cases hb : c.buf.unsafeToConcat c.buf.idx (some R.r.endPos) with
+      | error e => simp [hb] at h
+      | ok b => simp [hb, pure, Except.pure] at h
+    | true =>
+      obtain ⟨r1, _, r4, r5⟩ := matchInputI_span c _ _ _ R hR hidx
+      have hwm := r1.mp hok
+      obtain ⟨q1, q2⟩ := r4 (by simp [hwm])
+      simp only [hok, Bool.not_true, Bool.false_eq_true, if_false] at h
+      cases hl : ligateInput c (comps.length + 1) R.r.positions R.r.endPos R.r.totalComps lig with
+      | error e => simp [hl] at h
+      | ok c2 =>
+        simp only [hl, pure, Except.pure, Except.ok.injEq, Prod.mk.injEq, and_true] at h
+        subst h
+        refine ⟨R, rfl, hok, q1, q2, hl, ?_, ?_, ?_⟩
+        · intro i hi
+          rcases r5 _ hi with ⟨i', a1, a2, a3, a4⟩ | ⟨j, a1, _⟩
+          · cases a1; exact ⟨a2, a4⟩
+          · cases a1
+        · intro j hj
+          rcases r5 _ hj with ⟨i', a1, _⟩ | ⟨j', a1, _⟩ <;> cases a1
+        · intro j hj
+          rcases r5 _ hj with ⟨i', a1, _⟩ | ⟨j', a1, a2⟩
+          · cases a1
+          · cases a1; exact a2
+
+-- non-vacuity: "x (ligatures ignored) mark -> 99" on x, ligature, unattached mark, mark: the ligature forms, the skipped
+-- ligature glyph (index 1) and the mark (index 2) are among the reads, `match_end` = 3
+example : (matchInputI (spanLigCtx 8) 1 (fun g i => g == [10].getD i 0) [0, 0, 0, 0]).map MatchInI.view
+    = .ok (true, 3, [.inp 0, .inp 1, .inp 2], .matched) := by rfl
+example : (ligatureRule (spanLigCtx 8) ([10], 99)).map (fun r => ((r.1.buf.outArr.take r.1.buf.outLen).map (·.gid), r.2))
+    = .ok ([99, 20], true) := by rfl
+
+end RbModel.Flags
+
+
+/-! ### frame: glyphs that were not inspected do not influence the decision of a rule -/
+namespace RbModel.Flags
+open RbModel RbModel.Gsub
+
+/-- **the decision of a contextual rule is local to what it inspected.**  `c1`, `c2`: two apply contexts with the same font,
+    lookup settings and buffer geometry (`Similar`: idx, len, out_len, have_output; the glyph arrays — and the output mode —
+    are free) that hold the same current glyph.  If the buffers agree on the glyphs ONE run of the matcher on `c1` read
+    (`AgreeOn c1 c2 reads`: `info[i]` for `Rd.inp i`, `out_info()[j]` for `Rd.out j` / `Rd.lig j`) then the run on `c2` is
+    the same run: same verdict (match, or the same kind of failure), same match positions, same `end_position` /
+    `start_index` / `end_index`, same reads — for match_input (Context, Ligature) and for the whole matching phase of a chain
+    rule — and therefore the plain matchers return the same result and the rules of the model take the same branch with the
+    same span (`contextFinish` / `chainFinish` on the same `R` / `m`).  Every glyph outside the reads — in particular everything
+    at or beyond `end_position` / `end_index` and everything before `start_index` — may be changed, inserted or removed (the
+    lengths are part of `Similar`: changing `len` is visible to a matcher only if it ran into the end of the buffer, which is
+    then its stop position).  Together with `C03_match_reads_in_span` this is the statement that makes "safe to break" true
+    for one rule application: a cut outside the flagged span leaves the decision unchanged. -/
+theorem C03_context_decision_local (c1 c2 : Ctx) (hs : Similar c1 c2)
+    (hcur : c1.buf.info[c1.buf.idx]? = c2.buf.info[c1.buf.idx]?) :
+    (∀ n fn p R, matchInputI c1 n fn p = .ok R → AgreeOn c1 c2 R.reads →
+      matchInputI c2 n fn p = .ok R ∧ matchInput c2 n fn p = .ok R.r) ∧
+    (∀ nBack nIn nAhead fBack fIn fAhead m, chainMatchI c1 nBack nIn nAhead fBack fIn fAhead = .ok m →
+      AgreeOn c1 c2 m.reads → chainMatchI c2 nBack nIn nAhead fBack fIn fAhead = .ok m) ∧
+    (∀ recurse input mf lookups R,
+      matchInputI c1 input.length (fun g i => mf g (input.getD i 0)) [0, 0, 0, 0] = .ok R → AgreeOn c1 c2 R.reads →
+      applyContextRule recurse c1 input mf lookups = contextFinish recurse c1 input.length lookups R ∧
+      applyContextRule recurse c2 input mf lookups = contextFinish recurse c2 input.length lookups R) ∧
+    (∀ recurse nBack nIn nAhead fBack fIn fAhead lookups m,
+      chainMatchI c1 nBack nIn nAhead fBack fIn fAhead = .ok m → AgreeOn c1 c2 m.reads →
+      applyChainRule recurse c1 nBack nIn nAhead fBack fIn fAhead lookups = chainFinish recurse c1 nIn lookups m ∧
+      applyChainRule recurse c2 nBack nIn nAhead fBack fIn fAhead lookups = chainFinish recurse c2 nIn lookups m) := by
+  refine ⟨?_, ?_, ?_, ?_⟩
+  · intro n fn p R h hag
+    have h2 := matchInputI_local hs n fn p R h hcur hag
+    exact ⟨h2, by rw [← matchInputI_erase, h2]; rfl⟩
+  · intro nBack nIn nAhead fBack fIn fAhead m h hag
+    exact chainMatchI_local hs _ _ _ _ _ _ m h hcur hag
+  · intro recurse input mf lookups R h hag
+    have h2 := matchInputI_local hs _ _ _ R h hcur hag
+    constructor
+    · rw [applyContextRule_eq, h]; rfl
+    · rw [applyContextRule_eq, h2]; rfl
+  · intro recurse nBack nIn nAhead fBack fIn fAhead lookups m h hag
+    have h2 := chainMatchI_local hs _ _ _ _ _ _ m h hcur hag
+    constructor
+    · rw [applyChainRule_eq, h]; rfl
+    · rw [applyChainRule_eq, h2]; rfl
+
+-- non-vacuity: the last glyph of the example buffer (index 4, not read by the rule "1 (marks ignored) 2") is replaced by
+-- another glyph: the two contexts are Similar, agree on the reads [1, 2, 3] (which contain the skipped mark and the stop
+-- glyph), and differ at index 4
+example : ∃ c2 : Ctx, Similar spanCtx c2 ∧ spanCtx.buf.info[spanCtx.buf.idx]? = c2.buf.info[spanCtx.buf.idx]? ∧
+    AgreeOn spanCtx c2 [.inp 1, .inp 2, .inp 3] ∧ spanCtx.buf.info[4]? ≠ c2.buf.info[4]? ∧
+    (matchInputI spanCtx 1 (fun g i => g == [2].getD i 0) [0, 0, 0, 0]).map MatchInI.view
+      = .ok (true, 4, [.inp 1, .inp 2, .inp 3], .matched) := by
+  refine ⟨{ spanCtx with buf := { spanCtx.buf with info := spanCtx.buf.info.set 4 { gid := 77, mask := 1, cluster := 4, var1 := 2 } } },
+    ⟨rfl, rfl, rfl, rfl, rfl, rfl, rfl, rfl, rfl, rfl, rfl⟩, rfl, ?_, by decide, rfl⟩
+  intro x hx
+  simp only [List.mem_cons, List.not_mem_nil, or_false] at hx
+  rcases hx with rfl | rfl | rfl <;> rfl
+
+end RbModel.Flags
+
+
+/-! ### the ligature and the reverse-chaining subtables through the same instruments -/
+namespace RbModel.Flags
+open RbModel RbModel.Gsub
+
+/-- **the ligature and the reverse-chaining subtables of the model are "instrumented matching phase, then flag call / action"**:
+    the Ligature subtable is `firstRule` over `ligatureRule`; a ligature with components is `matchInputI` followed by
+    `unsafe_to_concat(idx, end_position)` or `ligate_input`; ReverseChainSingleSubst is the coverage test followed by `revMatchI`
+    (match_backtrack, then match_lookahead from `idx + 1`, with the reads) and
+    `unsafe_to_break_from_outbuffer` / `unsafe_to_concat_from_outbuffer(start_index, end_index)`.  Equations — nothing trusted. -/
+theorem C03_ligature_reverse_instrumented_same (recurse : Ctx → Nat → M (Ctx × Bool)) (nf : Bool) (c : Ctx) (cov : Cov)
+    (sets : List (List (List Nat × Nat))) (cl : List Nat × Nat) (hne : cl.1.isEmpty = false)
+    (back ahead : List Cov) (subst : List Nat) :
+    applySubtable recurse nf c (.ligature cov sets) = (do
+      let cur ← Mem.get c.buf.info c.buf.idx
+      match cov.index (cur.gid % 65536) with
+      | none => pure (c, false)
+      | some i => match sets[i]? with
+        | none => pure (c, false)
+        | some ligs => firstRule ligs c ligatureRule) ∧
+    ligatureRule c cl =
+      (matchInputI c cl.1.length (fun g i => g == cl.1.getD i 0) [0, 0, 0, 0] >>= ligatureFinish c cl) ∧
+    applySubtable recurse true c (.reverse cov back ahead subst) = (do
+      let cur ← Mem.get c.buf.info c.buf.idx
+      match cov.index (cur.gid % 65536) with
+      | none => pure (c, false)
+      | some i =>
+        if i ≥ subst.length then pure (c, false)
+        else revMatchI c back ahead >>= revFinish c (subst.getD i 0)) :=
+  ⟨applySubtable_ligature recurse nf c cov sets, ligatureRule_eq c cl hne, reverseRule_eq recurse c cov back ahead subst⟩
+
+/-- **a reverse-chaining substitution that applied flagged everything it inspected** (ReverseChainSingleSubst::apply, in the
+    state `apply_string` guarantees for reverse lookups: no out-buffer — `have_output = false`, so `backtrack_len = idx`,
+    `out_info()` is `info` and `unsafe_to_break_from_outbuffer(start, end)` is the one-sided call on `info[start, end)`, without
+    the short-range early return of `unsafe_to_break`).  When the matching phase and the action return `(c', true)`: the
+    matching phase ended with the span `[start_index, end_index)`, `start_index ≤ idx < end_index ≤ len`, and every glyph read —
+    the current glyph, the backtrack glyphs `Rd.out j` (`start_index ≤ j < idx`), the lookahead glyphs `Rd.inp i`
+    (`idx < i < end_index`), skipped glyphs included — in the flagged buffer `b` either belongs to the minimum cluster `m` of the
+    span or carries UNSAFE_TO_BREAK.  Monotone clusters over the buffer, all three cluster levels. -/
+theorem C03_reverse_match_flags_inspected (c c' : Ctx) (back ahead : List Cov) (s : Nat)
+    (h : (revMatchI c back ahead >>= revFinish c s) = .ok (c', true))
+    (hidx : c.buf.idx < c.buf.len) (hlen : c.buf.len ≤ c.buf.info.length) (hho : c.buf.haveOutput = false)
+    (hso : c.buf.sepOut = false)
+    (hu32 : ∀ j x, j < c.buf.len → c.buf.info[j]? = some x → x.cluster ≤ U32MAX)
+    (hmono : MonoRange c.buf.info 0 c.buf.len) :
+    ∃ (st e : Nat) (rs : List Rd) (b : Buf) (m : Nat),
+      revMatchI c back ahead = .ok (true, st, e, rs) ∧ c.buf.outArr = c.buf.info ∧ st ≤ c.buf.idx ∧ c.buf.idx < e ∧ e ≤ c.buf.len ∧
+      c.buf.unsafeToBreakFromOut st (some e) = .ok b ∧ IsRangeMin c.buf.info st e m ∧
+      ∀ x ∈ rs, RevRead c st e (fun i y => BreakFlagged b.info i y m) x := by
+  cases hm : revMatchI c back ahead with
+  | error er => simp only [hm, bind, Except.bind] at h; cases h
+  | ok v =>
+    obtain ⟨ok, st, e, rs⟩ := v
+    obtain ⟨s1, s2, s3, s4⟩ := revMatchI_span c back ahead ok st e rs hm hidx
+    have hbl : backtrackLen c.buf = c.buf.idx := by simp [backtrackLen, hho]
+    rw [hbl] at s1 s4
+    simp only [hm, bind, Except.bind, revFinish] at h
+    cases ok with
+    | false =>
+      simp only [Bool.false_eq_true, if_false] at h
+      cases hb : c.buf.unsafeToConcatFromOut st (some e) with
+      | error er => simp [hb] at h
+      | ok b => simp [hb, pure, Except.pure] at h
+    | true =>
+      obtain ⟨info, m, hb, hmin, hupd⟩ := setGlyphFlags_interior_noOutput c.buf
+        (Flag.UNSAFE_TO_BREAK ||| Flag.UNSAFE_TO_CONCAT) st e hho (by omega) s3 hlen
+        (fun j x _ a2 a3 => hu32 j x (by omega) a3) (MonoRange.shrink (MonoRange.shrinkL hmono (Nat.zero_le _)) s3)
+      refine ⟨st, e, rs, _, m, rfl, by simp [Buf.outArr, hso], s1, s2, s3, hb, hmin, ?_⟩
+      intro x hx
+      rcases s4 x hx with ⟨i, a1, a2, a3⟩ | ⟨j, a1, a2, a3⟩
+      · have hil : i < c.buf.info.length := by omega
+        exact Or.inl ⟨i, _, a1, a2, a3, List.getElem?_eq_getElem hil,
+          BreakFlagged.of_upd hupd (List.getElem?_eq_getElem hil) (by omega) a3⟩
+      · have hjl : j < c.buf.info.length := by omega
+        exact Or.inr ⟨j, _, a1, a2, a3, List.getElem?_eq_getElem hjl,
+          BreakFlagged.of_upd hupd (List.getElem?_eq_getElem hjl) a2 (by omega)⟩
+
+-- non-vacuity: backtrack [5], lookahead [3] (marks ignored) on 5 mark [1] mark 3: reads = current glyph, backtrack out[1]
+-- (the skipped mark), out[0], lookahead inp 3 (the skipped mark), inp 4; span = the whole buffer
+example : revMatchI spanRevCtx [[5]] [[3]] = .ok (true, 0, 5, [.inp 2, .out 1, .out 0, .inp 3, .inp 4]) := by rfl
+example : ∃ c', (revMatchI spanRevCtx [[5]] [[3]] >>= revFinish spanRevCtx 7) = .ok (c', true) ∧
+    c'.buf.info.map (fun x => (x.gid, x.mask)) = [(5, 1), (10, 3), (7, 3), (10, 3), (3, 3)] ∧
+    spanRevCtx.buf.idx < spanRevCtx.buf.len ∧ spanRevCtx.buf.len ≤ spanRevCtx.buf.info.length ∧ spanRevCtx.buf.haveOutput = false ∧
+    spanRevCtx.buf.sepOut = false ∧
+    (∀ j x, j < spanRevCtx.buf.len → spanRevCtx.buf.info[j]? = some x → x.cluster ≤ U32MAX) ∧
+    MonoRange spanRevCtx.buf.info 0 spanRevCtx.buf.len :=
+  ⟨_, rfl, rfl, by decide, by decide, rfl, rfl, fun j x _ hx => u32_of_all (by decide) j x hx,
+   MonoRange.of_pairwise (by decide) _ _⟩
+
+end RbModel.Flags
